@@ -2,6 +2,7 @@ import Qryn.Read.Cursor
 import Qryn.Read.Assembly
 import Qryn.Prom.Select
 import Qryn.Prof.Selector
+import Qryn.Prom.Stepped
 /-! Line protocol for C17.
     `c17cursor <samples> <ops>` — samples `ts:v,ts:v,…` (`-` = empty slice), ops `n` (Next), `a` (At),
     `s<t>` (Seek t) comma separated; answer: outputs in call order, `T`/`F`/`ts:v`/`!` (fault), comma separated.
@@ -14,7 +15,11 @@ import Qryn.Prof.Selector
     separated; answer: hex of the text of the `fp_sel` sub-query, or `unsupported`.
     `c17scan <fromNs> <toNs>` — hex of the two bounds of the raw-sample scan as rendered.
     `c17profsql <table> <hex fromDate> <hex toDate> <selectors>` — selectors `eq|ne|re|nre:<hex name>:<hex value>`;
-    answer: hex of the text of the Pyroscope selector query, or `unsupported`. -/
+    answer: hex of the text of the Pyroscope selector query, or `unsupported`.
+    `c17step <start> <end> <step> <range> <func|-> <rows>` — rows of the raw scan (`fp:val:ts,…`, ordered by
+    fingerprint and time); answer: what `Select` hands out after `processHints` and the row loop, `fp=ts:v|…;…`.
+    `c17stepsql <start> <end> <step> <range> <func|->` — `<hex outer SELECT of the per-step aggregation or ->
+    <hex range-filter condition or ->`. -/
 namespace Driver.C17
 open Qryn.Read.Cursor
 
@@ -122,7 +127,29 @@ def selectOp (rows keys : String) : Option String := do
     let out := Qryn.Read.Assembly.reshuffle (fun fp => (ks.lookup fp).getD 0) ss
     some (if out.isEmpty then "-" else ";".intercalate (out.map showSeries))
 
+def hintsOf (a b c d f : String) : Option Qryn.Prom.Stepped.Hints := do
+  let a ← a.toInt?
+  let b ← b.toInt?
+  let c ← c.toInt?
+  let d ← d.toInt?
+  some ⟨a, b, c, d, if f = "-" then "" else f⟩
+
+def stepOp (a b c d f rows : String) : Option String := do
+  let h ← hintsOf a b c d f
+  let rs ← allSome ((parseList rows).map parseRow)
+  match Qryn.Read.Assembly.assemble (Qryn.Prom.Stepped.run h rs) with
+  | none => some "!"
+  | some ss => some (if ss.isEmpty then "-" else ";".intercalate (ss.map showSeries))
+
+def stepSql (a b c d f : String) : Option String := do
+  let h ← hintsOf a b c d f
+  let sh := Qryn.Prom.Stepped.shape h
+  some ((if sh.1 then Qryn.hexOut (Qryn.Prom.Stepped.renderBucket h.start h.step) else "-") ++ " " ++
+        (if sh.2 then Qryn.hexOut (Qryn.Prom.Stepped.renderFilter h) else "-"))
+
 def handle : List String → Option String
+  | ["c17step", a, b, c, d, f, rows] => stepOp a b c d f rows
+  | ["c17stepsql", a, b, c, d, f] => stepSql a b c d f
   | ["c17select", rows, keys] => selectOp rows keys
   | ["c17profsql", table, d1, d2, sels] => profsql table d1 d2 sels
   | ["c17fpsql", table, date, tp, ms] => fpsql table date tp ms
